@@ -21,7 +21,7 @@ pub uninterp spec fn bytes_of<B>(b: B) -> Seq<u8>;
 pub broadcast axiom fn axiom_bytes_of_arr32(a: [u8; 32]) ensures #[trigger] bytes_of(a) == a@;
 pub broadcast axiom fn axiom_bytes_of_arr48(a: [u8; 48]) ensures #[trigger] bytes_of(a) == a@;
 pub broadcast axiom fn axiom_bytes_of_arr96(a: [u8; 96]) ensures #[trigger] bytes_of(a) == a@;
-pub broadcast axiom fn axiom_bytes_of_arr1(a: [u8; 1]) ensures #[trigger] bytes_of(a) == a@;
+pub broadcast axiom fn axiom_bytes_of_arr1(a: [u8; 1]) ensures #[trigger] bytes_of(a) == seq![a@[0]];
 pub broadcast axiom fn axiom_bytes_of_ref32(a: &[u8; 32]) ensures #[trigger] bytes_of(a) == a@;
 pub broadcast axiom fn axiom_bytes_of_slice(a: &[u8]) ensures #[trigger] bytes_of(a) == a@;
 pub broadcast axiom fn axiom_bytes_of_vec(a: Vec<u8>) ensures #[trigger] bytes_of(a) == a@;
@@ -31,6 +31,11 @@ pub struct Digest32 { _p: [u8; 32] }
 impl View for Digest32 {
     type V = Seq<u8>;
     uninterp spec fn view(&self) -> Seq<u8>;
+}
+
+impl Digest32 {
+    #[verifier::external_body]
+    pub fn as_ref(&self) -> (r: &[u8; 32]) ensures r@ == self@ { unimplemented!() }
 }
 
 impl Sha3_256 {
